@@ -116,7 +116,13 @@ impl<'c> Shapes<'c> {
     fn shape(&mut self, ty: Ty, d: usize) -> E {
         // shapes that produce a value of type `ty`
         match ty {
-            Ty::Int => match self.c.pick(13) {
+            Ty::Int => match self.c.pick(14) {
+                12 => {
+                    // field read: the receiver is evaluated exactly once, also when the field's
+                    // value is thrown away (as an operand of a block this shape is discarded)
+                    let mut o = self.operands(&[Ty::Obj], d);
+                    field(o.remove(0), "f")
+                }
                 0 => {
                     let op = ["+", "-", "*"][self.c.pick(3)];
                     let mut o = self.operands(&[Ty::Int, Ty::Int], d);
@@ -438,7 +444,7 @@ impl Property for C13 {
         true
     }
     fn rule(&self) -> String {
-        "cases: (enumerated) every expression shape of depth 1 and every depth-2 shape with one nested operand position, over {binary operator, calls with 0-3 arguments, method call, operator on an object, object with parent and 0-3 fields, array(size, simple), array(size, compound) and array(size, counting initializer) with size 0-3, index read, index write, field write, let, assignment, if with/without else, counted while (condition traced), print with 0-3 arguments, block}, every operand position holding a self-identifying side effect (tr(k, v) or begin print(\"<k>\"); v end), including positions whose value is discarded; (random) the same shapes to depth 4 with several nested positions. oracle: the reference semantics' output = the marker sequence (order and multiplicity) and the printed result. non-trivial: >=3 traced operand evaluations; distinct by source".into()
+        "cases: (enumerated) every expression shape of depth 1 and every depth-2 shape with one nested operand position, over {binary operator, calls with 0-3 arguments, method call, operator on an object, object with parent and 0-3 fields, array(size, simple), array(size, compound) and array(size, counting initializer) with size 0-3, index read, index write, field read, field write, let, assignment, if with/without else, counted while (condition traced), print with 0-3 arguments, block}, every operand position holding a self-identifying side effect (tr(k, v) or begin print(\"<k>\"); v end), including positions whose value is discarded; (random) the same shapes to depth 4 with several nested positions. oracle: the reference semantics' output = the marker sequence (order and multiplicity) and the printed result. non-trivial: >=3 traced operand evaluations; distinct by source".into()
     }
     fn random_cases(&self, tier: Tier) -> u64 {
         tier.pick(250_000, 4_000_000)
